@@ -1,3 +1,272 @@
-import RlibModel.Model.Common
-/-! Line-protocol driver for engine `rand` (stub: to be written by the engine's author). -/
-def main : IO Unit := pure ()
+import RlibModel.Model.RandRng
+import RlibModel.Model.RandFloat
+/-! Line-protocol driver for engine `rand` (property C14).
+
+Case lines (see `harness/e_rand/src/main.rs` for the generator):
+```
+gen:<ty> <form> <a> <b> ; raw ; raw …        gen_from_u64 of one integer range on a list of raw words
+cover:<ty> <form> <a> <b> <base>             all raws base .. base+len-1: every value reached exactly once
+float <start bits hex> <end bits hex> ; raw ; raw …   Range<f64>::gen_from_u64
+fdraws <start hex> <end hex> <seed> <n>      n calls of next(start..end) on f64 from Rng::from_seed(seed)
+stream <seed> <n> <k>                        n words of next_raw; equal seeds / a Copy taken after k words agree
+draws:<ty> <form> <a> <b> <seed> <n>         n calls of next(range) from Rng::from_seed(seed)
+period:<ty> <m> <seed> <n> <p>               n calls of next(0..m): the sequence does not have period p (tested claim)
+shuffle <seed> <n>                           shuffle of [0..n) with Rng::from_seed(seed), then one next_raw
+permstat <n> <nseeds> <seed0>                permutation frequencies of shuffle over consecutive seeds (tested claim)
+shufall <n> <mult>                           all draw vectors d_i ∈ 0..=i (+ mult·(i+1)): every permutation exactly once
+shufraw <n> ; raw ; raw …                    the trait's `shuffle` driven by a replayed raw stream
+```
+`form` ∈ range | incl | to | toincl | full (unused bounds are written as 0).
+-/
+open Rlib Rlib.Rand
+
+/-- the generator under test: constants extracted from the source -/
+def theGen : Gen := rng
+
+/-- IEEE-754 binary64 arithmetic of the platform: the operations the Rust code executes. -/
+def floatOps : FloatOps Float :=
+  { ofU64 := fun n => n.toUInt64.toFloat
+    add := (· + ·), sub := (· - ·), mul := (· * ·), div := (· / ·)
+    lt := fun a b => a < b }
+
+def parseForm? (form : String) (a b : Int) : Option Form :=
+  match form with
+  | "range" => some (.range a b)
+  | "incl" => some (.incl a b)
+  | "to" => some (.upTo b)
+  | "toincl" => some (.upToIncl b)
+  | "full" => some .full
+  | _ => none
+
+/-- classification of one draw as the property sees it -/
+def classInt (t : IntTy) (f : Form) : Except Panic Int → String
+  | .error p => p.toString
+  | .ok v => if f.lo t ≤ v ∧ v ≤ f.hi t then "in" else "out"
+
+/-- first classification different from `in`, else `in` -/
+def firstBad (cs : List String) : String :=
+  match cs.find? (· ≠ "in") with
+  | some c => c
+  | none => "in"
+
+def specInt (t : IntTy) (f : Form) : String :=
+  if ¬ f.wellTyped t then "any" else if f.lo t ≤ f.hi t then "in" else "panic:assert"
+
+def invalid : String := "M INVALID | V INVALID | S any"
+
+def hex16 (x : Float) : String := toHex x.toBits.toNat 16
+
+def classF (s e : Float) : Except Panic Float → String
+  | .error p => p.toString
+  | .ok x => if s ≤ x ∧ x < e then "in" else "out"
+
+def handleGen (t : IntTy) (rest : List String) (ops : List String) : Option String := do
+  match rest with
+  | [form, a, b] =>
+    let a ← parseInt? a
+    let b ← parseInt? b
+    let f ← parseForm? form a b
+    let raws ← ops.mapM parseNat?
+    if raws.isEmpty then return invalid
+    if raws.any (· ≥ 2 ^ 64) then return invalid
+    let rs := raws.map (gen t f)
+    let m := ",".intercalate (rs.map (showExcept toString))
+    return answer3 m (firstBad (rs.map (classInt t f))) (specInt t f)
+  | _ => none
+
+def handleCover (t : IntTy) (rest : List String) : Option String := do
+  match rest with
+  | [form, a, b, base] =>
+    let a ← parseInt? a
+    let b ← parseInt? b
+    let f ← parseForm? form a b
+    let base ← parseNat? base
+    let lo := f.lo t
+    let hi := f.hi t
+    if ¬ f.wellTyped t ∨ hi < lo ∨ hi - lo ≥ 65536 then return invalid
+    let n := (hi - lo + 1).toNat
+    if base + n > 2 ^ 64 then return invalid
+    let rs := (List.range n).map (fun k => gen t f (base + k))
+    -- the values, in order, that were produced
+    let vals := rs.filterMap (fun r => match r with | .ok v => some v | .error _ => none)
+    let seen := vals.foldl (fun (acc : Array Bool) v =>
+      if lo ≤ v ∧ v ≤ hi then acc.setIfInBounds (v - lo).toNat true else acc) (Array.replicate n false)
+    let distinct := (seen.toList.filter id).length
+    let sum := vals.foldl (· + ·) 0
+    let onto := vals.length = n ∧ distinct = n
+    return answer3 s!"distinct={distinct} sum={sum}" (if onto then "onto" else "notonto") "onto"
+  | _ => none
+
+def handleFloat (rest : List String) (ops : List String) : Option String := do
+  match rest with
+  | [sh, eh] =>
+    let sb ← parseHex? sh
+    let eb ← parseHex? eh
+    if sb ≥ 2 ^ 64 ∨ eb ≥ 2 ^ 64 then return invalid
+    let s := Float.ofBits sb.toUInt64
+    let e := Float.ofBits eb.toUInt64
+    let raws ← ops.mapM parseNat?
+    if raws.isEmpty then return invalid
+    if raws.any (· ≥ 2 ^ 64) then return invalid
+    let rs := raws.map (genF floatOps Params.floatShift Params.floatBits s e)
+    let m := ",".intercalate (rs.map (showExcept hex16))
+    let spec := if s < e then "in" else "panic:assert"
+    return answer3 m (firstBad (rs.map (classF s e))) spec
+  | _ => none
+
+/-- `n` calls of `next(start..end)` on floats from state `st` (stops at the first panic) -/
+def fdraws (s e : Float) : Nat → Nat → Except Panic (List Float)
+  | 0, _ => .ok []
+  | n + 1, st =>
+    let (st', o) := nextRaw theGen st
+    match genF floatOps Params.floatShift Params.floatBits s e o with
+    | .error p => .error p
+    | .ok x =>
+      match fdraws s e n st' with
+      | .error p => .error p
+      | .ok xs => .ok (x :: xs)
+
+def handleFdraws (rest : List String) : Option String := do
+  match rest with
+  | [sh, eh, seed, n] =>
+    let sb ← parseHex? sh
+    let eb ← parseHex? eh
+    let seed ← parseNat? seed
+    let n ← parseNat? n
+    if sb ≥ 2 ^ 64 ∨ eb ≥ 2 ^ 64 ∨ seed ≥ 2 ^ 64 then return invalid
+    let s := Float.ofBits sb.toUInt64
+    let e := Float.ofBits eb.toUInt64
+    let spec := if s < e ∨ n = 0 then "in" else "panic:assert"
+    match fdraws s e n seed with
+    | .error p => return answer3 p.toString p.toString spec
+    | .ok xs =>
+      return answer3 (",".intercalate (xs.map hex16)) (firstBad (xs.map (fun x => classF s e (.ok x)))) spec
+  | _ => none
+
+def isPermOfRange (n : Nat) (v : List Nat) : Bool :=
+  v.length = n ∧ (List.range n).all (fun x => v.count x = 1)
+
+/-- Lehmer code of a permutation of `0..n-1` (the harness uses the same numbering) -/
+def permIndex (v : List Nat) : Nat :=
+  let rec go : List Nat → Nat → Nat
+    | [], acc => acc
+    | x :: rest, acc => go rest (acc * (rest.length + 1) + (rest.filter (· < x)).length)
+  go v 0
+
+/-- chi-square acceptance bound for n = 2..7 (same table as checks/C14.py and the harness) -/
+def chi2Bound (n : Nat) : Nat := #[0, 0, 33, 51, 98, 263, 1043, 5863].getD n 0
+
+def factorial : Nat → Nat
+  | 0 => 1
+  | n + 1 => (n + 1) * factorial n
+
+/-- permutation frequencies of the model's shuffle over the seeds `seed0 .. seed0+nseeds-1` -/
+def permStat (n nseeds seed0 : Nat) : String × Bool :=
+  let cells := factorial n
+  let base := List.range n
+  let (counts, bad) := (List.range nseeds).foldl (fun (acc : Array Nat × Nat) i =>
+    match (shuffleRng theGen (seed0 + i) base).1 with
+    | .ok v => if isPermOfRange n v then (acc.1.modify (permIndex v) (· + 1), acc.2) else (acc.1, acc.2 + 1)
+    | .error _ => (acc.1, acc.2 + 1)) (Array.replicate cells 0, 0)
+  let reached := (counts.toList.filter (· > 0)).length
+  let s := counts.foldl (fun acc c => acc + ((c * cells : Nat) - (nseeds : Int)) ^ 2) (0 : Int)
+  let fair := bad = 0 ∧ reached = cells ∧ s ≤ (chi2Bound n * nseeds * cells : Nat)
+  (s!"reached={reached} s={s} bad={bad}", fair)
+
+/-- all draw vectors `(d_1 … d_{n-1})` with `d_i ∈ 0..=i`, in the harness's order -/
+def drawVectors (n : Nat) : List (List Nat) :=
+  (List.range (n - 1)).foldl (fun acc k => acc.flatMap (fun d => (List.range (k + 2)).map (fun x => d ++ [x]))) [[]]
+
+def handle (line : String) : String :=
+  match splitOps line with
+  | [] => badLine line
+  | hdr :: ops =>
+  match tokens hdr with
+  | [] => badLine line
+  | op :: rest =>
+  match splitTy op, rest with
+  | ("gen", some t), rest => (handleGen t rest ops).getD (badLine line)
+  | ("cover", some t), rest => (handleCover t rest).getD (badLine line)
+  | ("float", none), rest => (handleFloat rest ops).getD (badLine line)
+  | ("fdraws", none), rest => (handleFdraws rest).getD (badLine line)
+  | ("stream", none), [seed, n, _k] =>
+    match parseNat? seed, parseNat? n with
+    | some seed, some n =>
+      if seed ≥ 2 ^ 64 then invalid else
+      let (outs, _) := rawStream theGen n seed
+      answer3 (",".intercalate (outs.map toString)) "det" "det"
+    | _, _ => badLine line
+  | ("draws", some t), [form, a, b, seed, n] =>
+    match parseInt? a, parseInt? b, parseNat? seed, parseNat? n with
+    | some a, some b, some seed, some n =>
+      match parseForm? form a b with
+      | none => badLine line
+      | some f =>
+        if seed ≥ 2 ^ 64 then invalid else
+        match draws theGen t f n seed with
+        | .error p => answer3 p.toString p.toString (specInt t f)
+        | .ok vs =>
+          let cls := firstBad (vs.map (fun v => classInt t f (.ok v)))
+          -- zero draws never reach the assert
+          let spec := if n = 0 ∧ specInt t f ≠ "any" then "in" else specInt t f
+          answer3 (",".intercalate (vs.map toString)) cls spec
+    | _, _, _, _ => badLine line
+  | ("period", some t), [m, seed, n, p] =>
+    match parseInt? m, parseNat? seed, parseNat? n, parseNat? p with
+    | some m, some seed, some n, some p =>
+      if p = 0 ∨ n < p + 64 ∨ m < 1 ∨ m > t.maxVal ∨ seed ≥ 2 ^ 64 then invalid else
+      match draws theGen t (.range 0 m) n seed with
+      | .error e => answer3 e.toString e.toString "aperiodic"
+      | .ok vs =>
+        let arr := vs.toArray
+        let periodic := (List.range (n - p)).all (fun i => arr.getD i 0 = arr.getD (i + p) 0)
+        -- TESTED, not proved: the spec side only says what the property demands of this seed
+        answer3 (",".intercalate (vs.map toString)) (if m = 1 ∨ ¬ periodic then "aperiodic" else "periodic") "aperiodic"
+    | _, _, _, _ => badLine line
+  | ("shuffle", none), [seed, n] =>
+    match parseNat? seed, parseNat? n with
+    | some seed, some n =>
+      if seed ≥ 2 ^ 64 then invalid else
+      let (r, sf) := shuffleRng theGen seed (List.range n)
+      let nxt := (nextRaw theGen sf).2
+      match r with
+      | .error p => answer3 p.toString p.toString "perm"
+      | .ok v => answer3 s!"{showNats v} next={nxt}" (if isPermOfRange n v then "perm" else "notperm") "perm"
+    | _, _ => badLine line
+  | ("permstat", none), [n, nseeds, seed0] =>
+    match parseNat? n, parseNat? nseeds, parseNat? seed0 with
+    | some n, some nseeds, some seed0 =>
+      if n < 2 ∨ n > 7 ∨ nseeds > 2000000 ∨ seed0 + nseeds ≥ 2 ^ 64 ∨ nseeds < 20 * factorial n then invalid else
+      let (m, fair) := permStat n nseeds seed0
+      -- TESTED, not proved: the spec side only says what the property demands
+      answer3 m (if fair then "fair" else "unfair") "fair"
+    | _, _, _ => badLine line
+  | ("shufall", none), [n, mult] =>
+    match parseNat? n, parseNat? mult with
+    | some n, some mult =>
+      if n > 8 ∨ (mult + 1) * (n + 1) ≥ 2 ^ 64 then invalid else
+      let cells := factorial n
+      let base := List.range n
+      let (counts, bad) := (drawVectors n).foldl (fun (acc : Array Nat × Nat) d =>
+        let arr := (d.zipIdx.map (fun (x, k) => x + mult * (k + 2))).toArray
+        match shuffle (fun k => arr.getD k 0) base with
+        | .ok v => if isPermOfRange n v then (acc.1.modify (permIndex v) (· + 1), acc.2) else (acc.1, acc.2 + 1)
+        | .error _ => (acc.1, acc.2 + 1)) (Array.replicate cells 0, 0)
+      let reached := (counts.toList.filter (· > 0)).length
+      let maxc := counts.foldl max 0
+      let ok := bad = 0 ∧ reached = cells ∧ maxc = 1
+      -- S: shuffle_onto + counting (n! draw vectors, n! permutations)
+      answer3 s!"reached={reached} max={maxc} bad={bad}" (if ok then "all-once" else "not-bijective") "all-once"
+    | _, _ => badLine line
+  | ("shufraw", none), [n] =>
+    match parseNat? n, ops.mapM parseNat? with
+    | some n, some raws =>
+      if raws.length < n - 1 ∨ raws.any (· ≥ 2 ^ 64) then invalid else
+      let arr := raws.toArray
+      match shuffle (fun k => arr.getD k 0) (List.range n) with
+      | .error p => answer3 p.toString p.toString "perm"
+      | .ok v => answer3 (showNats v) (if isPermOfRange n v then "perm" else "notperm") "perm"
+    | _, _ => badLine line
+  | _, _ => badLine line
+
+def main : IO Unit := driverMain handle
